@@ -177,6 +177,28 @@ def run(ctx):
                         alt_seen.setdefault(f, set()).add(present)
                         continue
                 if ok:
+                    # between the lookup and the field only the combinators of the field's kind may sit: a .filter(..) / .take_if(..) / .or(..)
+                    # on the looked-up value would turn some present values into absent ones (or the reverse)
+                    chain, u_ = [], strip_refs(t)
+                    for _ in range(16):
+                        if isinstance(u_, tuple) and len(u_) > 2 and u_[0] == "field" and isinstance(u_[1], tuple) and u_[1][0] == "downcast":
+                            u_ = strip_refs(u_[1][1])
+                        elif is_call(u_, "HashMap::get"):
+                            break
+                        elif is_call(u_) and call_args(u_):
+                            chain.append(mir.norm_path(u_[1]).rsplit("::", 1)[-1])
+                            u_ = strip_refs(call_args(u_)[0])
+                        else:
+                            break
+                    ALLOWED = {"map", "transpose", "map_err", "branch", "from_residual", "ok_or", "ok_or_else", "cloned", "copied", "as_deref", "as_ref", "map_or", "map_or_else",
+                               "unwrap_or_default", "unwrap_or", "unwrap_or_else", "into", "from", "new", "deref", "as_str", "to_string", "to_owned", "clone"}
+                    stray = [n_ for n_ in chain if n_ not in ALLOWED]
+                    if is_call(u_, "HashMap::get") and stray:
+                        ok = False
+                        why = "the value looked up for %s passes through %s before it becomes the field: present values can be dropped or replaced" % (key, stray)
+                        ctx.check(ok, "D1-KEY-FIELD", DK, "field=%s" % f, "%s <- %s (%s)" % (f, key, c["kind"]), why, fn_span(body))
+                        continue
+                if ok:
                     kind = c["kind"]
                     if kind == "optional":
                         # the looked-up string copied as it is: .map(String::from) / .cloned() / .map(Clone::clone | to_string | to_owned | Into::into)
